@@ -76,7 +76,8 @@ func validateUnionCases(env *Environment, errorSink *validation.ErrorSink) *Envi
 
 			if len(cases) > 1 {
 				for _, typeCase := range cases {
-					if childType, ok := typeCase.Type.(*GeneralizedType); ok && len(childType.Cases) > 1 {
+					// (a vector, array or map of unions is a container, not a union)
+					if childType, ok := typeCase.Type.(*GeneralizedType); ok && len(childType.Cases) > 1 && childType.Dimensionality == nil {
 						errorSink.Add(validationError(typeCase, "unions may not immediately contain other unions"))
 					}
 				}
